@@ -435,6 +435,12 @@ def signature(frames, depth=3):
 def terminate_key(ev, fail=None):
     kind = "terminate" if ev.get("kind") == "std::terminate" else ev.get("kind", "?")
     lib = library_frames(ev.get("frames", []))
+    if kind != "terminate" and fail:
+        # a crash after the refusal of a request made by XalanMap::doCreateEntry: the map keeps a half-built entry and
+        # whoever walks the map next crashes - the class is the insertion that was interrupted, not the later victim
+        fl = library_frames(fail.get("frames", []))
+        if fl and fl[0] == "XalanMap::doCreateEntry":
+            return "%s after refusal inside: %s" % (kind, " < ".join(fl[:2]))
     if not lib and fail:          # the crash left no usable stack: name the refused request's call site instead
         fl = library_frames(fail.get("frames", []))
         arena = [i for i, f in enumerate(fl) if re.match(r"\*Allocator::create\w*$", f)]
